@@ -18,6 +18,13 @@ Kernels (source function -> generated definitions):
   io/named_text_buffer.py NamedBufferExtractor.has_field_mask    gen_hfm_line_len, gen_hfm_ignored
   io/named_text_buffer.py NamedBufferExtractor.has_field_name    gen_flag_len_match (Flag keys: item length == key length)
   io/named_text_buffer.py NamedBufferExtractor.get_field_by_name gen_value_start, gen_value_len, gen_value_keep_len
+  io/delimited_buffers.py DelimitedBufferWithInernalComments._calculate_col_starts_and_ends / _get_buffer_extractor
+                                                                 gen_ic_probe, gen_ic_end_del, gen_ic_sentinel, gen_ic_start, gen_ic_n_fields, gen_ic_cr_adjusts
+  io/multiline_buffer.py MultiLineFastaBuffer.from_raw_buffer    gen_fa_marker, gen_fa_next, gen_fa_cut
+  io/multiline_buffer.py MultiLineFastaBuffer.get_data           gen_fa_line_start, gen_fa_entry_line, gen_fa_last_end, gen_fa_n_lines,
+                                                                 gen_fa_total, gen_fa_name_from
+  io/multiline_buffer.py MultiLineFastaBuffer._modify_ends_for_carriage_returns
+                                                                 gen_fa_cr_window, gen_fa_cr_probe, gen_fa_cr_byte, gen_fa_cr_elem_probe, gen_fa_cr_adjust
 
 Reading conventions (trusted; stated in notes/C02.md): an element-wise NumPy expression over equally shaped / broadcast
 arrays is read per element; `x.reshape(-1, n)`, `x[..., None]`, `x.ravel()` and boolean-mask selection `x[mask]` do not
@@ -130,7 +137,7 @@ def _bool_fix(txt, names):
 
 
 def gen():
-    rel = 'bionumpy/io/delimited_buffers.py, io/file_buffers.py, io/vcf_buffers.py, io/buffers/sam.py, io/named_text_buffer.py'
+    rel = 'bionumpy/io/delimited_buffers.py, io/file_buffers.py, io/vcf_buffers.py, io/buffers/sam.py, io/named_text_buffer.py, io/multiline_buffer.py'
     defs = ['From Coq Require Import Bool.\n']
     T = {}
 
@@ -455,4 +462,172 @@ def gen():
             raise Unsupported('keep_sep branch changed')
         return K02(f, {'lens': 'l'}).define('gen_value_keep_len', ['l'], ast.BinOp(left=aug.target, op=aug.op, right=aug.value))
     _emit(defs, 'gen_value_keep_len', value_keep)
+
+    # ---- MultiLineFastaBuffer (wrapped FASTA): from_raw_buffer / get_data / _modify_ends_for_carriage_returns
+    ML = 'bionumpy/io/multiline_buffer.py'
+    mfrb = lambda: find_function(tree(ML), 'MultiLineFastaBuffer.from_raw_buffer')
+    mgd = lambda: find_function(tree(ML), 'MultiLineFastaBuffer.get_data')
+    mcr = lambda: find_function(tree(ML), 'MultiLineFastaBuffer._modify_ends_for_carriage_returns')
+
+    def fa_scan():
+        cls = find_function(tree(ML), 'MultiLineFastaBuffer')
+        mk = _one([n for n in cls.body if isinstance(n, ast.Assign) and src_of(n.targets[0]) == '_new_entry_marker'], 'marker attribute')
+        if not (isinstance(mk.value, ast.Constant) and isinstance(mk.value.value, str) and len(mk.value.value) == 1):
+            raise Unsupported('marker is not a one-byte literal')
+        f = mfrb()
+        nl = _assign(f, 'new_lines').value          # np.flatnonzero(chunk[:-1] == '\n')
+        if src_of(nl) != "np.flatnonzero(chunk[:-1] == '\\n')":
+            raise Unsupported('new_lines changed: %s' % src_of(nl))
+        ne = _assign(f, 'new_entries').value        # np.flatnonzero(chunk[new_lines + 1] == cls._new_entry_marker)
+        if not (isinstance(ne, ast.Call) and src_of(ne.func) == 'np.flatnonzero' and len(ne.args) == 1
+                and isinstance(ne.args[0], ast.Compare) and len(ne.args[0].ops) == 1 and isinstance(ne.args[0].ops[0], ast.Eq)
+                and src_of(ne.args[0].comparators[0]) == 'cls._new_entry_marker'
+                and isinstance(ne.args[0].left, ast.Subscript) and src_of(ne.args[0].left.value) == 'chunk'):
+            raise Unsupported('new_entries changed: %s' % src_of(ne))
+        es = _assign(f, 'entry_starts').value       # new_lines[new_entries] + 1
+        if src_of(_assign(f, 'cut_chunk').value) != 'chunk[:entry_starts[-1]]':
+            raise Unsupported('cut_chunk changed')
+        r = _one([n for n in ast.walk(f) if isinstance(n, ast.Return)], 'return of from_raw_buffer')
+        if [src_of(a) for a in r.value.args] != ['cut_chunk', 'new_lines[:new_entries[-1]]', 'new_entries[:-1]']:
+            raise Unsupported('constructor arguments changed: %s' % src_of(r.value))
+        return (_zdef('gen_fa_marker', ord(mk.value.value))
+                + K02(f, {'new_lines': 'p'}).define('gen_fa_next', ['p'], ne.args[0].left.slice)
+                + K02(f, {'new_lines[new_entries]': 'p'}).define('gen_fa_cut', ['p'], es))
+    _emit(defs, 'gen_fa_next', fa_scan)
+
+    def fa_insert(target, base):
+        c = _assign(mgd(), target).value            # np.insert(<base> + 1, 0, 0)
+        if not (isinstance(c, ast.Call) and src_of(c.func) == 'np.insert' and len(c.args) == 3 and not c.keywords):
+            raise Unsupported('%s is not np.insert(...): %s' % (target, src_of(c)))
+        if _int_const(c.args[1], 'insert position') != 0 or _int_const(c.args[2], 'inserted value') != 0:
+            raise Unsupported('%s: inserted value / position changed: %s' % (target, src_of(c)))
+        return K02(mgd(), {base: 'p'}).expr(c.args[0], ['p'], [])
+    _emit(defs, 'gen_fa_line_start', lambda: 'Definition gen_fa_line_start (p : Z) : Z :=\n  %s.\n' % fa_insert('line_starts', 'self._new_lines'))
+    _emit(defs, 'gen_fa_entry_line', lambda: 'Definition gen_fa_entry_line (p : Z) : Z :=\n  %s.\n' % fa_insert('new_entries', 'self._new_entries'))
+
+    def fa_last_end():
+        a = _assigns(mgd(), 'line_ends')
+        if len(a) != 2 or src_of(a[1].value) != 'self._modify_ends_for_carriage_returns(line_ends, self._data)':
+            raise Unsupported('line_ends assignments changed')
+        c = a[0].value                              # np.append(self._new_lines, self._data.size - 1)
+        if not (isinstance(c, ast.Call) and src_of(c.func) == 'np.append' and len(c.args) == 2 and src_of(c.args[0]) == 'self._new_lines'):
+            raise Unsupported('line_ends is not np.append(self._new_lines, ...): %s' % src_of(c))
+        if src_of(_assign(mgd(), 'data').value) != 'self._move_intervals_to_ragged_array(line_starts, line_ends)':
+            raise Unsupported('line texts are not taken between line_starts and line_ends')
+        return K02(mgd(), {'self._data.size': 'size'}).define('gen_fa_last_end', ['size'], c.args[1])
+    _emit(defs, 'gen_fa_last_end', fa_last_end)
+
+    def fa_cr():
+        f = mcr()
+        i = _one([n for n in f.body if isinstance(n, ast.If)], 'if in _modify_ends_for_carriage_returns')
+        t = i.test                                  # np.any(data[line_ends[:10] - 1] == '\r')
+        if not (isinstance(t, ast.Call) and src_of(t.func) == 'np.any' and len(t.args) == 1 and isinstance(t.args[0], ast.Compare)
+                and isinstance(t.args[0].left, ast.Subscript) and src_of(t.args[0].left.value) == 'data'
+                and len(t.args[0].ops) == 1 and isinstance(t.args[0].ops[0], ast.Eq)):
+            raise Unsupported('CR test changed: %s' % src_of(t))
+        probe = t.args[0].left.slice                # line_ends[:10] - 1
+        win = _one([n for n in ast.walk(probe) if isinstance(n, ast.Subscript)], 'window slice')
+        if not (src_of(win.value) == 'line_ends' and isinstance(win.slice, ast.Slice) and win.slice.lower is None and win.slice.step is None):
+            raise Unsupported('CR window changed: %s' % src_of(win))
+        if len(i.body) != 1 or not isinstance(i.body[0], ast.Return) or i.orelse:
+            raise Unsupported('CR branch changed')
+        v = i.body[0].value                         # line_ends - (data[line_ends - 1] == '\r')
+        if not (isinstance(v, ast.BinOp) and isinstance(v.right, ast.Compare) and isinstance(v.right.left, ast.Subscript)
+                and src_of(v.right.left.value) == 'data'):
+            raise Unsupported('CR adjustment changed: %s' % src_of(v))
+        last = f.body[-1]
+        if not (isinstance(last, ast.Return) and src_of(last.value) == 'line_ends'):
+            raise Unsupported('the unadjusted ends are not returned otherwise')
+        return (_zdef('gen_fa_cr_window', _int_const(win.slice.upper, 'CR window'))
+                + K02(f, {src_of(win): 'e'}).define('gen_fa_cr_probe', ['e'], probe)
+                + _zdef('gen_fa_cr_byte', ord(t.args[0].comparators[0].value))
+                + K02(f, {'line_ends': 'e'}).define('gen_fa_cr_elem_probe', ['e'], v.right.left.slice)
+                + K02(f, {'line_ends': 'e', src_of(v.right.left): 'c'}).define('gen_fa_cr_adjust', ['e', 'c'], v))
+    _emit(defs, 'gen_fa_cr_probe', fa_cr)
+
+    def fa_counts():
+        v = _assign(mgd(), 'n_lines_per_entry').value     # np.diff(np.append(new_entries, self._new_lines.size + 1)) - 1
+        if not (isinstance(v, ast.BinOp) and isinstance(v.left, ast.Call) and src_of(v.left.func) == 'np.diff' and len(v.left.args) == 1):
+            raise Unsupported('n_lines_per_entry changed: %s' % src_of(v))
+        ap = v.left.args[0]
+        if not (isinstance(ap, ast.Call) and src_of(ap.func) == 'np.append' and len(ap.args) == 2 and src_of(ap.args[0]) == 'new_entries'):
+            raise Unsupported('n_lines_per_entry changed: %s' % src_of(v))
+        h = _assign(mgd(), 'headers').value               # data[new_entries, 1:]
+        if not (isinstance(h, ast.Subscript) and src_of(h.value) == 'data' and isinstance(h.slice, ast.Tuple) and len(h.slice.elts) == 2
+                and src_of(h.slice.elts[0]) == 'new_entries' and isinstance(h.slice.elts[1], ast.Slice)
+                and h.slice.elts[1].upper is None and h.slice.elts[1].step is None):
+            raise Unsupported('headers changed: %s' % src_of(h))
+        return (K02(mgd(), {src_of(v.left): 'd'}).define('gen_fa_n_lines', ['d'], v)
+                + K02(mgd(), {'self._new_lines.size': 'nl'}).define('gen_fa_total', ['nl'], ap.args[1])
+                + _zdef('gen_fa_name_from', _int_const(h.slice.elts[1].lower, 'first byte of the name')))
+    _emit(defs, 'gen_fa_n_lines', fa_counts)
+
+    # ---- DelimitedBufferWithInernalComments (GFF3 / wig): _calculate_col_starts_and_ends / _get_buffer_extractor
+    icc = lambda: find_function(tree(DB), 'DelimitedBufferWithInernalComments._calculate_col_starts_and_ends')
+    icg = lambda: find_function(tree(DB), 'DelimitedBufferWithInernalComments._get_buffer_extractor')
+
+    def ic_mask():
+        f = icc()
+        a = _assigns(f, 'comment_mask')
+        if len(a) != 2 or src_of(a[1].value) != 'np.flatnonzero(comment_mask)':
+            raise Unsupported('comment_mask assignments changed')
+        v = a[0].value                       # (data[delimiters[:-1]] == '\n') & (data[delimiters[:-1] + 1] == cls.COMMENT)
+        if not (isinstance(v, ast.BinOp) and isinstance(v.op, ast.BitAnd) and isinstance(v.left, ast.Compare) and isinstance(v.right, ast.Compare)):
+            raise Unsupported('comment_mask is not a conjunction of two comparisons: %s' % src_of(v))
+        if src_of(v.left) != "data[delimiters[:-1]] == '\\n'":
+            raise Unsupported('first conjunct changed: %s' % src_of(v.left))
+        r = v.right
+        if not (len(r.ops) == 1 and isinstance(r.ops[0], ast.Eq) and src_of(r.comparators[0]) == 'cls.COMMENT'
+                and isinstance(r.left, ast.Subscript) and src_of(r.left.value) == 'data'):
+            raise Unsupported('second conjunct changed: %s' % src_of(r))
+        return K02(f, {'delimiters[:-1]': 'd'}).define('gen_ic_probe', ['d'], r.left.slice)
+    _emit(defs, 'gen_ic_probe', ic_mask)
+
+    def ic_deletes():
+        f = icc()
+        sd = _assigns(f, 'start_delimiters')
+        ed = _assigns(f, 'end_delimiters')
+        if not sd or src_of(sd[0].value) != 'np.delete(delimiters, comment_mask)[:-1]':
+            raise Unsupported('start_delimiters changed')
+        c = ed[0].value if ed else None      # np.delete(delimiters, comment_mask + 1)
+        if not (isinstance(c, ast.Call) and src_of(c.func) == 'np.delete' and len(c.args) == 2 and src_of(c.args[0]) == 'delimiters'):
+            raise Unsupported('end_delimiters changed')
+        i = _one([n for n in f.body if isinstance(n, ast.If)], 'if data[0] != COMMENT')
+        if src_of(i.test) != 'data[0] != cls.COMMENT' or len(i.body) != 1 or len(i.orelse) != 1:
+            raise Unsupported('first-line test changed: %s' % src_of(i.test))
+        ins = i.body[0].value                # np.insert(start_delimiters, 0, -1)
+        if not (src_of(i.body[0].targets[0]) == 'start_delimiters' and isinstance(ins, ast.Call) and src_of(ins.func) == 'np.insert'
+                and len(ins.args) == 3 and src_of(ins.args[0]) == 'start_delimiters' and _int_const(ins.args[1], 'insert position') == 0):
+            raise Unsupported('sentinel insertion changed: %s' % src_of(i.body[0]))
+        if src_of(i.orelse[0]) != 'end_delimiters = end_delimiters[1:]':
+            raise Unsupported('else branch changed: %s' % src_of(i.orelse[0]))
+        r = _one([n for n in ast.walk(f) if isinstance(n, ast.Return)], 'return')
+        if not (isinstance(r.value, ast.Tuple) and len(r.value.elts) == 2 and src_of(r.value.elts[1]) == 'end_delimiters'):
+            raise Unsupported('return changed: %s' % src_of(r.value))
+        return (K02(f, {'comment_mask': 'k'}).expr(c.args[1], ['k'], []), _int_const(ins.args[2], 'sentinel'),
+                K02(f, {'start_delimiters': 'd'}).expr(r.value.elts[0], ['d'], []))
+    _emit(defs, 'gen_ic_end_del', lambda: 'Definition gen_ic_end_del (k : Z) : Z :=\n  %s.\n' % ic_deletes()[0])
+    _emit(defs, 'gen_ic_sentinel', lambda: _zdef('gen_ic_sentinel', ic_deletes()[1]))
+    _emit(defs, 'gen_ic_start', lambda: 'Definition gen_ic_start (d : Z) : Z :=\n  %s.\n' % ic_deletes()[2])
+
+    def ic_nfields():
+        f = icg()
+        v = _assign(f, 'n_fields').value     # next((i for i, d in enumerate(ends) if data[d] == '\n')) + 1
+        if not (isinstance(v, ast.BinOp) and isinstance(v.left, ast.Call) and src_of(v.left.func) == 'next'):
+            raise Unsupported('n_fields changed: %s' % src_of(v))
+        if src_of(v.left.args[0]) not in ("(i for i, d in enumerate(ends) if data[d] == '\\n')",):
+            raise Unsupported('n_fields scan changed: %s' % src_of(v.left.args[0]))
+        se = _one([n for n in ast.walk(f) if isinstance(n, ast.Assign) and src_of(n.targets[0]) in ('starts, ends', '(starts, ends)')], 'starts, ends')
+        if src_of(se.value) != 'cls._calculate_col_starts_and_ends(data, delimiters)':
+            raise Unsupported('starts, ends are not taken from _calculate_col_starts_and_ends')
+        e2 = [n for n in ast.walk(f) if isinstance(n, ast.Assign) and src_of(n.targets[0]) == 'ends']
+        cr = len(e2) == 1 and src_of(e2[0].value) == 'cls._modify_for_carriage_return(ends.reshape(-1, n_fields), data)'
+        r = _one([n for n in ast.walk(f) if isinstance(n, ast.Return)], 'return')
+        if src_of(r.value) != 'TextBufferExtractor(data, starts.reshape(-1, n_fields), ends)':
+            raise Unsupported('returned extractor changed: %s' % src_of(r.value))
+        if not cr and not any(src_of(n) == 'ends.reshape(-1, n_fields)' for n in ast.walk(f)):
+            raise Unsupported('ends are not reshaped')
+        return (K02(f, {src_of(v.left): 'i'}).define('gen_ic_n_fields', ['i'], v)
+                + 'Definition gen_ic_cr_adjusts : bool := %s.\n' % ('true' if cr else 'false'))
+    _emit(defs, 'gen_ic_n_fields', ic_nfields)
     return rel, defs
